@@ -56,6 +56,13 @@ def blen__facts(x, r):
     return r >= 0 and implies(x > 0, r >= 1) and implies(x <= 0, r == 0)
 
 
+def unfold(n):
+    def deco(f):
+        return f
+    return deco
+
+
+@unfold(4)
 def be_val(s) -> Int:
     """big-endian value of a sequence of octets"""
     if len(s) == 0:
@@ -314,3 +321,70 @@ def be_val_bound(s: IntList):
         be_val_bound(s[:len(s) - 1])
         pow2_add(8 * (len(s) - 1), 8)
         all_bytes(s)
+
+
+def is_bitstr(s) -> Bool:
+    """every character of s is '0' or '1'"""
+    if len(s) == 0:
+        return True
+    return (s[len(s) - 1] == '0' or s[len(s) - 1] == '1') and is_bitstr(s[:len(s) - 1])
+
+
+def bits_val(s) -> Int:
+    """int(s, 2) for a string of '0'/'1' (0 for the empty string)"""
+    if len(s) == 0:
+        return 0
+    return 2 * bits_val(s[:len(s) - 1]) + (1 if s[len(s) - 1] == '1' else 0)
+
+
+def bits_val__facts(s, r):
+    return r >= 0
+
+
+@lemma
+def is_bitstr_slice(s: Str, a: Int, b: Int):
+    requires(is_bitstr(s) and 0 <= a and a <= b and b <= len(s))
+    ensures(is_bitstr(s[a:b]))
+    decreases(len(s))
+    if len(s) > 0:
+        if b == len(s):
+            if a < b:
+                is_bitstr_slice(s[:len(s) - 1], a, b - 1)
+        else:
+            is_bitstr_slice(s[:len(s) - 1], a, b)
+
+
+@lemma
+def bits_val_bound(s: Str):
+    ensures(bits_val(s) < pow2(len(s)))
+    decreases(len(s))
+    if len(s) > 0:
+        bits_val_bound(s[:len(s) - 1])
+
+
+def is_decimal(s):
+    """int(s) accepts s -- modelled for single digit strings only (the only use in the code under contract)"""
+    return len(s) == 1 and (s == '0' or s == '1' or s == '2' or s == '3' or s == '4' or s == '5' or s == '6'
+                            or s == '7' or s == '8' or s == '9')
+
+
+def dec_val(s):
+    if s == '0':
+        return 0
+    if s == '1':
+        return 1
+    if s == '2':
+        return 2
+    if s == '3':
+        return 3
+    if s == '4':
+        return 4
+    if s == '5':
+        return 5
+    if s == '6':
+        return 6
+    if s == '7':
+        return 7
+    if s == '8':
+        return 8
+    return 9
